@@ -251,7 +251,9 @@ def nat_ejson(h):
     import datetime, decimal, isodate
     from dataflows.helpers.extended_json import ejson
     tzs = [None] + [datetime.timezone(datetime.timedelta(seconds=s), n) for s, n in
-                    ((0, 'UTC'), (3600, 'A'), (-18000, 'EST'), (-1800, 'X'), (45 * 60 + 5 * 3600, 'NPT'), (-86399, 'm'), (86399, 'p'))]
+                    ((0, 'UTC'), (3600, 'A'), (-18000, 'EST'), (-1800, 'X'), (45 * 60 + 5 * 3600, 'NPT'), (-86399, 'm'), (86399, 'p'),
+                     # abbreviations are ambiguous: one name, several offsets, all decoded in this one process
+                     (28800, 'CST'), (-21600, 'CST'), (-18000, 'CST'), (19800, 'IST'), (3600, 'IST'), (7200, 'IST'))]
     try:
         from dateutil import tz as _dtz
         # tzinfo objects WITHOUT a name (what casting '...T10:00:00+05:30' with format 'any' produces)
